@@ -50,54 +50,75 @@ def real_op(name):
     return name, {}
 
 
+def enabled_ops(state, ntokens):
+    heads, split, rattach, collapsed, topnodes = state
+    en = ["root_attach", "negra_mark_heads", "mark_heads_negra", "mark_heads_ptb",
+          "punctuation_root", "collapse_unary_chains"]
+    if topnodes < 2:
+        en.append("add_topnode")
+    if rattach:
+        en += ["punctuation_verylow", "punctuation_symetrify", "punctuation_symetrify_relc"]
+    if heads and rattach:
+        en += ["boyd_split", "boyd_split"]
+    if split:
+        en += ["raising", "raising"]
+    if heads:
+        en += ["binarize", "binarize_bare"]
+    if collapsed:
+        en += ["uncollapse_unary_chains", "uncollapse_unary_chains"]
+    return en
+
+
+def step_state(state, op):
+    heads, split, rattach, collapsed, topnodes = state
+    if op == "root_attach":
+        rattach = True
+        heads = False          # re-attachment can move a head child away: marking is stale
+    elif op in ("punctuation_verylow", "punctuation_symetrify", "punctuation_symetrify_relc",
+                "punctuation_root"):
+        heads = False          # same: "heads marked" must mean one head child per constituent
+    elif op in ("negra_mark_heads", "mark_heads_negra", "mark_heads_ptb"):
+        heads = True
+    elif op == "boyd_split":
+        split = True
+    elif op == "add_topnode":
+        topnodes += 1
+        heads = False          # the old root carries no head flag: mark again before relying on it
+        split = False
+    elif op in ("binarize", "binarize_bare"):
+        split = False          # fresh @ nodes carry no split flags
+    elif op == "collapse_unary_chains":
+        collapsed = True
+    elif op == "uncollapse_unary_chains":
+        collapsed = False
+    return (heads, split, rattach, collapsed, topnodes)
+
+
 def gen_program(rng, ntokens, maxlen):
-    """Draw a prerequisite-respecting program using an abstract state that over-approximates
-    nothing: an op is only drawn when its prerequisite is known to hold."""
+    """Draw a prerequisite-respecting program: an op is only drawn when its documented
+    prerequisite is known to hold (conservative abstract state).  A third of the programs are
+    biased towards the documented crossing-branch pipeline
+    root_attach, <head marking>, boyd_split, raising with other enabled ops interspersed."""
     prog = []
-    heads = False        # every non-root node carries a head flag
-    split = False        # every non-root node carries split / head_block flags
-    rattach = False
-    collapsed = False
-    topnodes = 0
+    state = (False, False, False, False, 0)
     n = rng.randint(1, maxlen)
-    for _ in range(n):
-        enabled = ["root_attach", "negra_mark_heads", "mark_heads_negra", "mark_heads_ptb",
-                   "punctuation_root", "collapse_unary_chains"]
-        if topnodes < 2:
-            enabled.append("add_topnode")
-        if rattach:
-            enabled += ["punctuation_verylow", "punctuation_symetrify",
-                        "punctuation_symetrify_relc"]
-        if heads and rattach:
-            enabled += ["boyd_split", "boyd_split"]
-        if split:
-            enabled += ["raising", "raising"]
-        if heads:
-            enabled += ["binarize", "binarize_bare"]
-        if collapsed:
-            enabled += ["uncollapse_unary_chains", "uncollapse_unary_chains"]
-        op = rng.choice(enabled)
+    wanted = []
+    if rng.random() < 0.35:
+        wanted = ["root_attach", rng.choice(["negra_mark_heads", "mark_heads_negra",
+                                             "mark_heads_ptb"]), "boyd_split", "raising"]
+        n = max(n, 4)
+    while len(prog) < n:
+        en = enabled_ops(state, ntokens)
+        if wanted and wanted[0] in en and rng.random() < 0.75:
+            op = wanted.pop(0)
+        else:
+            op = rng.choice(en)
+            if wanted and op == wanted[0]:
+                wanted.pop(0)
         prog.append(op)
-        if op == "root_attach":
-            rattach = True
-        elif op in ("negra_mark_heads", "mark_heads_negra", "mark_heads_ptb"):
-            heads = True
-        elif op == "boyd_split":
-            split = True
-        elif op == "raising":
-            pass
-        elif op == "add_topnode":
-            topnodes += 1
-            heads = False      # the old root has no head flag now
-            split = False
-        elif op in ("binarize", "binarize_bare"):
-            split = False      # fresh @ nodes carry no split flags
-        elif op == "collapse_unary_chains":
-            collapsed = True
-            if ntokens == 1:
-                break          # disclaimed end state
-        elif op == "uncollapse_unary_chains":
-            collapsed = False
+        state = step_state(state, op)
+        if op == "collapse_unary_chains" and ntokens == 1:
+            break              # disclaimed end state
     return prog
 
 
@@ -107,7 +128,11 @@ def generate(seed, tier):
     progs = []
     for i in range(nprog):
         k = model.swarm_knobs(rng, tier, allow=("ascii", "latin1", "xml"))
-        k["punct"] = rng.choice([0.0, 0.2, 0.5, 1.0])
+        if rng.random() < 0.6:
+            k["n_max"] = max(k["n_max"], rng.choice([4, 6, 8]))
+            k["n_min"] = 3
+            k["disc"] = rng.choice([0.3, 0.6, 0.9])
+        k["punct"] = rng.choice([0.0, 0.1, 0.2, 0.5, 1.0])
         k["pair"] = rng.choice([0.0, 0.2, 0.4])
         k["edges"] = rng.choice([model.EDGES, ["HD", "NK", "--"], ["--"]])
         if rng.random() < 0.3:
@@ -381,33 +406,11 @@ def shrink_candidates(sc):
 
 
 def prereq_ok(ops, ntokens):
-    heads = split = rattach = collapsed = False
+    state = (False, False, False, False, 0)
     for k, op in enumerate(ops):
-        if op in ("punctuation_verylow", "punctuation_symetrify",
-                  "punctuation_symetrify_relc") and not rattach:
+        if op not in enabled_ops(state, ntokens):
             return False
-        if op == "boyd_split" and not (heads and rattach):
+        state = step_state(state, op)
+        if op == "collapse_unary_chains" and ntokens == 1 and k != len(ops) - 1:
             return False
-        if op == "raising" and not split:
-            return False
-        if op in ("binarize", "binarize_bare") and not heads:
-            return False
-        if op == "uncollapse_unary_chains" and not collapsed:
-            return False
-        if op == "root_attach":
-            rattach = True
-        elif op in ("negra_mark_heads", "mark_heads_negra", "mark_heads_ptb"):
-            heads = True
-        elif op == "boyd_split":
-            split = True
-        elif op == "add_topnode":
-            heads = split = False
-        elif op in ("binarize", "binarize_bare"):
-            split = False
-        elif op == "collapse_unary_chains":
-            collapsed = True
-            if ntokens == 1 and k != len(ops) - 1:
-                return False
-        elif op == "uncollapse_unary_chains":
-            collapsed = False
     return True
